@@ -136,6 +136,22 @@ const PREFIXES: [&str; 12] = [
     "!'é' || ",
 ];
 
+/// A prefix from the fixed list, or (rarely) a long run of blanks, line breaks or multi-byte
+/// literals that pushes the offset, the line or the column past 255 / 65 535.
+fn prefix(rng: &mut Rng) -> String {
+    if rng.chance(1, 40) {
+        let n = [250usize, 255, 256, 257, 300, 65_530, 65_535, 65_536, 65_537, 70_000][rng.below(10)];
+        match rng.below(4) {
+            0 => " ".repeat(n),
+            1 => "\n".repeat(n),
+            2 => format!("'{}' | ", "é".repeat(n)),
+            _ => format!("{}{}", "\n".repeat(n / 2), " ".repeat(n - n / 2)),
+        }
+    } else {
+        PREFIXES[rng.below(PREFIXES.len())].to_string()
+    }
+}
+
 fn wrap(rng: &mut Rng, core: &str) -> String {
     match rng.below(14) {
         0 => core.to_string(),
@@ -177,7 +193,7 @@ fn runtime_case(rep: &mut Report, ev: &Evaluator, strict: &Opts, rng: &mut Rng, 
         // the wrapper could not attach the core as a projection right-hand side
         text = format!("@ | {}", core);
     }
-    let text = format!("{}{}", PREFIXES[rng.below(PREFIXES.len())], text);
+    let text = format!("{}{}", prefix(rng), text);
     let text = if rng.chance(2, 3) { respace(&text, rng) } else { text };
     let tree = match parse(&text, strict) {
         Ok(t) => t,
@@ -291,7 +307,7 @@ fn parse_case(rep: &mut Report, rng: &mut Rng) {
                 s[..idx[rng.below(idx.len())]].to_string()
             }
         }
-        2 => format!("{}{}", PREFIXES[rng.below(PREFIXES.len())], char_soup(rng, 12)),
+        2 => format!("{}{}", prefix(rng), char_soup(rng, 12)),
         _ => format!("{}\n{}", s, char_soup(rng, 6)),
     };
     rep.evaluations += 1;
